@@ -134,6 +134,12 @@ func (env *Env) eval(e Expr) *SV {
 	case Binary:
 		return env.evalBinary(e)
 	case IndexE:
+		if a, t, ok := env.evalAddr(e); ok && size(t) <= 64 {
+			return vc.loadPure(env.st, a, t)
+		}
+		if xv, ok := env.tryMapIndex(e); ok {
+			return xv
+		}
 		x := env.eval(e.X)
 		i := env.toBV64(env.eval(e.I))
 		if x.T == nil {
@@ -168,6 +174,9 @@ func (env *Env) eval(e Expr) *SV {
 		}
 		env.fail("cannot index %s", exprString(e.X))
 	case FieldE:
+		if a, t, ok := env.evalAddr(e); ok && size(t) <= 64 {
+			return vc.loadPure(env.st, a, t)
+		}
 		x := env.eval(e.X)
 		if x.T == nil {
 			env.fail("field of untyped value %s", exprString(e.X))
@@ -641,6 +650,42 @@ func (env *Env) evalCall(e CallE) *SV {
 			env.fail("rsa_key(): no rsa.VerifyPKCS1v15 call was executed")
 		}
 		return vc.lastRSA.key
+	case "has":
+		need(2)
+		m := arg(0)
+		sh := shapeOf(m.T)
+		if m.T == nil || !sh.ok {
+			env.fail("has(m, k): unsupported map")
+		}
+		k := arg(1)
+		kt := ""
+		if k.Untyped != nil {
+			kt = bvLitBig(sh.kbits, k.Untyped)
+		} else {
+			kt = resize(k.term(), k.sort().Bits(), sh.kbits, k.signed())
+		}
+		p, _ := mapGet(env.st, sh, m.C[0], kt)
+		return ghostBool(p)
+	case "flat":
+		// flat(a, i): the i-th scalar cell of the (possibly nested) array lvalue a
+		need(2)
+		a, t, ok := env.evalAddr(e.Args[0])
+		if !ok {
+			env.fail("flat(a, i): %s is not an array lvalue", exprString(e.Args[0]))
+		}
+		leaf := t
+		for {
+			arr, isArr := leaf.Underlying().(*types.Array)
+			if !isArr {
+				break
+			}
+			leaf = arr.Elem()
+		}
+		if size(leaf) != 1 {
+			env.fail("flat(a, i): leaf elements must be scalars")
+		}
+		i := env.toBV64(arg(1))
+		return vc.loadPure(env.st, &SV{C: []string{a.C[0], bvAdd(a.C[1], i)}}, leaf)
 	case "isnil":
 		need(1)
 		x := arg(0)
@@ -998,4 +1043,144 @@ func (vc *VC) expandScalars(t string, depth int) string {
 	}
 	walk(parseSexp(t), depth)
 	return sb.String()
+}
+
+// evalAddr resolves an lvalue expression (*p, p.f, a[i] on arrays / slices /
+// pointers to arrays, and chains of these) to its address without loading the
+// enclosing aggregate.
+func (env *Env) evalAddr(e Expr) (addr *SV, t types.Type, ok bool) {
+	defer func() {
+		if r := recover(); r != nil {
+			if _, isEval := r.(evalErr); isEval {
+				addr, t, ok = nil, nil, false
+				return
+			}
+			panic(r)
+		}
+	}()
+	switch x := e.(type) {
+	case Unary:
+		if x.Op != "*" {
+			return nil, nil, false
+		}
+		p := env.eval(x.X)
+		if p.T == nil {
+			return nil, nil, false
+		}
+		pt, isPtr := p.T.Underlying().(*types.Pointer)
+		if !isPtr {
+			return nil, nil, false
+		}
+		return &SV{C: []string{p.C[0], p.C[1]}}, pt.Elem(), true
+	case FieldE:
+		var base *SV
+		var bt types.Type
+		if a, at, ok := env.evalAddr(x.X); ok {
+			base, bt = a, at
+		} else {
+			p := env.evalShallow(x.X)
+			if p == nil || p.T == nil {
+				return nil, nil, false
+			}
+			pt, isPtr := p.T.Underlying().(*types.Pointer)
+			if !isPtr {
+				return nil, nil, false
+			}
+			base, bt = &SV{C: []string{p.C[0], p.C[1]}}, pt.Elem()
+		}
+		if pt, isPtr := bt.Underlying().(*types.Pointer); isPtr {
+			// auto-dereference p.f where the lvalue holds a pointer
+			pv := env.vc.loadPure(env.st, base, bt)
+			base, bt = &SV{C: []string{pv.C[0], pv.C[1]}}, pt.Elem()
+		}
+		stt, isStruct := bt.Underlying().(*types.Struct)
+		if !isStruct {
+			return nil, nil, false
+		}
+		off := 0
+		for i := 0; i < stt.NumFields(); i++ {
+			ft := stt.Field(i).Type()
+			if stt.Field(i).Name() == x.Name {
+				return &SV{C: []string{base.C[0], cellIdx(base.C[1], off)}}, ft, true
+			}
+			off += size(ft)
+		}
+		return nil, nil, false
+	case IndexE:
+		i := env.toBV64(env.eval(x.I))
+		if a, at, ok := env.evalAddr(x.X); ok {
+			switch u := at.Underlying().(type) {
+			case *types.Array:
+				return &SV{C: []string{a.C[0], bvAdd(a.C[1], scale(i, size(u.Elem())))}}, u.Elem(), true
+			case *types.Slice:
+				sl := env.vc.loadPure(env.st, a, at)
+				return &SV{C: []string{sl.C[0], bvAdd(sl.C[1], scale(i, size(u.Elem())))}}, u.Elem(), true
+			case *types.Pointer:
+				if arr, isArr := u.Elem().Underlying().(*types.Array); isArr {
+					pv := env.vc.loadPure(env.st, a, at)
+					return &SV{C: []string{pv.C[0], bvAdd(pv.C[1], scale(i, size(arr.Elem())))}}, arr.Elem(), true
+				}
+			}
+			return nil, nil, false
+		}
+		xv := env.evalShallow(x.X)
+		if xv == nil || xv.T == nil {
+			return nil, nil, false
+		}
+		switch u := xv.T.Underlying().(type) {
+		case *types.Slice:
+			return &SV{C: []string{xv.C[0], bvAdd(xv.C[1], scale(i, size(u.Elem())))}}, u.Elem(), true
+		case *types.Pointer:
+			if arr, isArr := u.Elem().Underlying().(*types.Array); isArr {
+				return &SV{C: []string{xv.C[0], bvAdd(xv.C[1], scale(i, size(arr.Elem())))}}, arr.Elem(), true
+			}
+		}
+	}
+	return nil, nil, false
+}
+
+// evalShallow evaluates identifiers and calls, but not aggregates reached
+// through fields / indexing (those go through evalAddr).
+func (env *Env) evalShallow(e Expr) *SV {
+	switch e.(type) {
+	case Ident, CallE, Unary:
+		return env.eval(e)
+	}
+	return nil
+}
+
+// tryMapIndex evaluates m[k] for a map-typed m.
+func (env *Env) tryMapIndex(e IndexE) (*SV, bool) {
+	var mv *SV
+	if a, t, ok := env.evalAddr(e.X); ok {
+		if _, isMap := t.Underlying().(*types.Map); !isMap {
+			return nil, false
+		}
+		mv = env.vc.loadPure(env.st, a, t)
+	} else if id, isId := e.X.(Ident); isId {
+		v, has := env.names[id.Name]
+		if !has || v.T == nil {
+			return nil, false
+		}
+		if _, isMap := v.T.Underlying().(*types.Map); !isMap {
+			return nil, false
+		}
+		mv = v
+	} else {
+		return nil, false
+	}
+	sh := shapeOf(mv.T)
+	if !sh.ok {
+		env.fail("map %s has an unsupported shape for specifications", exprString(e.X))
+	}
+	k := env.eval(e.I)
+	kt := bvLitBig(sh.kbits, big.NewInt(0))
+	if k.Untyped != nil {
+		kt = bvLitBig(sh.kbits, k.Untyped)
+	} else {
+		kt = resize(k.term(), k.sort().Bits(), sh.kbits, k.signed())
+	}
+	_, v := mapGet(env.st, sh, mv.C[0], kt)
+	mt := mv.T.Underlying().(*types.Map)
+	return &SV{T: mt.Elem(), C: []string{v}}, true
 }
